@@ -29,7 +29,9 @@ MANIFEST = dict(
          "which (without temperature sugar / digit separators) is exactly the tree the expression was elaborated from "
          "(list and struct literals included); C15_roundtrip_sep — with digit separators: the same up to the separators of the "
          "literals; C15_fixed_point_partial — re-elaborating that tree in a session with the same "
-         "unit / function names gives a typed tree with the same echo (expressions without sugar); C15_fixed_point_neg — negative "
+         "unit / function names gives a typed tree with the same echo (expressions without sugar); C15_roundtrip_exact_sugar / C15_fixed_point_sugar — the temperature "
+         "conversion functions are excluded only in the positions where the sugar form is really printed (as operands they are "
+         "echoed as calls and are exact); C15_fixed_point_neg — negative "
          "literals included: the re-elaborated tree differs (the literal becomes a negation) but has the same echo in every mode; "
          "(3) C15_decorator_echo — the echo of EVERY decorator (any strings, any alias list with accepts annotations) is read "
          "back by the parser as that decorator; C15_definition_echo_partial — over a model of Statement::pretty_print for "
@@ -55,7 +57,8 @@ MANIFEST = dict(
               "printer-model correspondence + metamorphic echo oracle on the real interpreter",
 )
 
-THEOREMS = ["C15_string_escape", "C15_roundtrip_partial", "C15_roundtrip_exact", "C15_roundtrip_sep", "C15_fixed_point_partial", "C15_fixed_point_neg",
+THEOREMS = ["C15_string_escape", "C15_roundtrip_partial", "C15_roundtrip_exact", "C15_roundtrip_sep", "C15_roundtrip_exact_sugar", "C15_fixed_point_partial", "C15_fixed_point_neg",
+            "C15_fixed_point_sugar",
             "C15_lex_string_echo", "C15_lex_interp_echo", "C15_decorator_echo", "C15_definition_echo_partial",
             "C15_reassociation_refuted"]
 ALLOWED_AXIOMS = []
